@@ -20,7 +20,6 @@ import (
 	codectypes "github.com/cosmos/cosmos-sdk/codec/types"
 	cryptocodec "github.com/cosmos/cosmos-sdk/crypto/codec"
 	"github.com/cosmos/cosmos-sdk/crypto/keys/ed25519"
-	simtestutil "github.com/cosmos/cosmos-sdk/testutil/sims"
 	sdk "github.com/cosmos/cosmos-sdk/types"
 	authtypes "github.com/cosmos/cosmos-sdk/x/auth/types"
 	banktypes "github.com/cosmos/cosmos-sdk/x/bank/types"
@@ -122,12 +121,29 @@ func ValKey(i int) *ed25519.PrivKey {
 	return ed25519.GenPrivKeyFromSecret(seed)
 }
 
+// NodeConfig holds node-local settings (what an operator writes into app.toml): they must not
+// influence what a node computes from blocks.  nil = defaults.
+var NodeConfig map[string]interface{}
+
+type appOpts map[string]interface{}
+
+func (m appOpts) Get(k string) interface{} { return m[k] }
+
 func NewApp(db dbm.DB, chainID string) *app.Haqq {
+	opts := appOpts{"home": app.DefaultNodeHome}
+	for k, v := range NodeConfig {
+		opts[k] = v
+	}
+	var bopts []func(*baseapp.BaseApp)
+	if mgp, ok := NodeConfig["minimum-gas-prices"].(string); ok {
+		bopts = append(bopts, baseapp.SetMinGasPrices(mgp))
+	}
+	bopts = append(bopts, baseapp.SetChainID(chainID))
 	return app.NewHaqq(
 		log.NewNopLogger(), db, nil, true, map[int64]bool{}, app.DefaultNodeHome, 0,
 		encoding.MakeConfig(app.ModuleBasics),
-		simtestutil.NewAppOptionsWithFlagHome(app.DefaultNodeHome),
-		baseapp.SetChainID(chainID),
+		opts,
+		bopts...,
 	)
 }
 
